@@ -212,6 +212,76 @@ func cliTargetsCase(col *Collector, focus string, dir string, targets []string, 
 	col.Add(cs)
 }
 
+// tasks whose names are words the `run` sub-command treats as keywords (`run pipeline NAME`, `run task NAME`): named
+// directly after `taskctl` they are targets like any other - they run, in order, their failure stops what follows and
+// decides the exit status
+func keywordTargetCases(col *Collector, focus string) {
+	dir := newScratchDir("c07k")
+	defer os.RemoveAll(dir)
+	names := []string{"t1", "t2", "pipeline", "task"}
+	var b strings.Builder
+	b.WriteString("tasks:\n")
+	for _, n := range names {
+		fmt.Fprintf(&b, "  %s: {command: [\"echo %s >> $TRACE; exit ${ST_%s:-0}\"]}\n", n, n, n)
+	}
+	os.WriteFile(filepath.Join(dir, "k.yaml"), []byte(b.String()), 0644)
+	type job struct {
+		targets []string
+		st      map[string]int
+	}
+	var jobs []job
+	for _, kw := range []string{"pipeline", "task"} {
+		for _, st := range []int{0, 3} {
+			jobs = append(jobs, job{[]string{kw}, map[string]int{kw: st}},
+				job{[]string{"t1", kw, "t2"}, map[string]int{kw: st}},
+				job{[]string{kw, "t1"}, map[string]int{kw: st}},
+				job{[]string{"t1", "t2", kw}, map[string]int{kw: st}},
+				job{[]string{kw, "t2", kw}, map[string]int{"t2": st}})
+		}
+	}
+	jobs = append(jobs, job{[]string{"pipeline", "task", "t1"}, map[string]int{"task": 5}}, job{[]string{"task", "pipeline"}, map[string]int{}})
+	parallel(len(jobs), 8, func(i int) {
+		j := jobs[i]
+		trace := newTracePath()
+		defer os.Remove(trace)
+		env := []string{"TRACE=" + trace}
+		var oks []string
+		for _, n := range names {
+			env = append(env, fmt.Sprintf("ST_%s=%d", n, j.st[n]))
+			oks = append(oks, fmt.Sprintf("%s:%d", n, map[bool]int{true: 1, false: 0}[j.st[n] == 0]))
+		}
+		args := append([]string{"-c", filepath.Join(dir, "k.yaml"), "--output", "raw"}, j.targets...)
+		res := runTaskctl(dir, env, 20*time.Second, args...)
+		ran := readTrace(trace)
+		cs := Case{Tags: []string{"cli", "form=root", "keyword-named-targets"}, NonTrivial: len(j.targets) >= 2}
+		cs.Line = fmt.Sprintf("cli ok=%s args=%s", strings.Join(oks, ","), strings.Join(j.targets, " "))
+		cs.Replay = fmt.Sprintf("taskctl %s  [statuses %v; tasks named %v]", strings.Join(args, " "), j.st, names)
+		cs.Impl = fmt.Sprintf("ran=%s|exit=%d", strings.Join(ran, ","), res.exit)
+		var want []string
+		allOK := true
+		for _, t := range j.targets {
+			want = append(want, t)
+			if j.st[t] != 0 {
+				allOK = false
+				break
+			}
+		}
+		var fail string
+		switch {
+		case res.timedOut || res.panicked || (res.exit != 0 && res.exit != 1):
+			fail = fmt.Sprintf("abnormal exit %d (timeout %v): %s", res.exit, res.timedOut, lastLines(res.stderr, 3))
+		case (res.exit == 0) != allOK:
+			fail = fmt.Sprintf("exit status %d, all requested targets succeeded = %v", res.exit, allOK)
+		case strings.Join(ran, ",") != strings.Join(want, ","):
+			fail = fmt.Sprintf("targets that ran %v, expected %v", ran, want)
+		}
+		if fail != "" && focus == "C07" {
+			cs.Fail, cs.Sig = fail, "c07-cli"
+		}
+		col.Add(cs)
+	})
+}
+
 func lastLines(s string, n int) string {
 	ls := strings.Split(strings.TrimSpace(s), "\n")
 	if len(ls) > n {
@@ -333,4 +403,5 @@ func runCliTargets(col *Collector, focus, tier string, rng *rand.Rand) {
 	parallel(len(jobs), 16, func(i int) {
 		cliTargetsCase(col, focus, dir, jobs[i].targets, jobs[i].st, jobs[i].form, jobs[i].extra, jobs[i].gflags, jobs[i].rflags)
 	})
+	keywordTargetCases(col, focus)
 }
